@@ -404,6 +404,13 @@ def enumerate_removals(snap, flavour, rng, with_invalid=True):
             sp = v.service_path(s)
             if sp is not None:
                 ops.append(['disconnect', sp, ip])
+                # inapplicable: "un-peering" the interface's OWN service from the service it is connected to
+                own = v.service_of_cp(i)
+                if with_invalid and own and v.service_path(own[0]) is not None and rng.random() < 0.3:
+                    pair = [v.service_path(own[0]), sp]
+                    if rng.random() < 0.5:
+                        pair.reverse()
+                    ops.append(['unpeer'] + pair)
         elif with_invalid and tops and rng.random() < 0.15:
             ops.append(['disconnect', ['t', v.name(rng.choice(tops))], ip])
         if v.typ(i) == 'SubInterface':
